@@ -2,10 +2,10 @@
 # usage: tools/run_all.sh [quick|thorough] [ids...]  -- runs the registered checks one after the other, prints a summary line each
 T=${1:-quick}; shift
 IDS="$@"
-[ -z "$IDS" ] && IDS=$(/venv/bin/python -c "import json; print(' '.join(c['property_id'] for c in json.load(open('/verif/MANIFEST.json'))['checks']))")
+[ -z "$IDS" ] && IDS=$(/venv/bin/python -c "import json; print(' '.join(c['property_id'] for c in json.load(open('MANIFEST.json'))['checks']))")
 for id in $IDS; do
   s=$(date +%s)
-  out=$(cd /verif && ./check $id --tier $T 2>&1)
+  out=$(cd "$(dirname "$0")/.." && ./check $id --tier $T 2>&1)
   rc=$?
   e=$(date +%s)
   echo "$id rc=$rc $((e-s))s | $(echo "$out" | grep -E "^$id tier" | cut -c1-160)"
